@@ -21,6 +21,7 @@ import os as real_os
 import pathlib
 import sys
 import threading
+import weakref
 
 REPO_DIR = real_os.environ.get('VERIF_REPO_DIR', '/repo')
 
@@ -50,7 +51,7 @@ class Sim:  # pylint: disable=too-many-instance-attributes
         self.digest = hashlib.sha1()
         self.trace = [] if keep_trace else None
         self.hooks = []
-        self.open_files = {}
+        self.open_files = weakref.WeakValueDictionary()  # weak: a dropped stream closes its file
         self.fds = {}
         self.ledger = None  # inode -> bytes at last fsync (None: not tracked)
         self.sched = None
